@@ -75,6 +75,21 @@ Fixpoint drain_raw {A} (s : stream A) (fuel i : nat) : res (list A) * nat :=
     end
   end.
 
+(* a consumer that asks the limiting generator for at most k items and then stops
+   (first, take, any, indexer, ...): (items it got, how it ended, items pulled from the source) *)
+Inductive tend := Asked | Ended | Raised.
+
+Fixpoint take_lim {A} (N : Z) (s : stream A) (k i : nat) : list A * tend * nat :=
+  match k with
+  | O => ([], Asked, O)
+  | S k' =>
+    match lim_next N s i with
+    | Stop => ([], Ended, O)
+    | Raise => ([], Raised, 1%nat)
+    | Yield x => let '(l, e, p) := take_lim N s k' (S i) in (x :: l, e, S p)
+    end
+  end.
+
 (* the sized branch: the collection itself or the exception; nothing is pulled *)
 Definition limit_sized {A} (N : Z) (l : list A) : res (list A) :=
   if too_large N (length l) then TooLarge else Ok l.
@@ -360,6 +375,24 @@ Fixpoint cpoints (e : cexpr) : list Z :=
 Definition crun (Q : Z) (fin : list Z -> Z) (e : cexpr) : option Z * list Z := ceval Q (CApp fin [e]).
 
 (* ------------------------------------------------------------------------- *)
+(* accumulator loops                                                         *)
+(* ------------------------------------------------------------------------- *)
+(* distinct / groupBy / toDict / generate(decycle) / memorize: one private accumulator (set,
+   dict, list) grows item by item and `limit_memory_usage(engine, (1, accumulator))` runs after
+   every step.  gs = growth of the accumulator's own size at each step (0 when it did not grow).
+   Result: (size of the accumulator at the end, raised?, number of steps made, the raising one included) *)
+Fixpoint acc_loop (Q acc : Z) (gs : list Z) : Z * bool * nat :=
+  match gs with
+  | [] => (acc, false, O)
+  | g :: r =>
+    let a := acc + g in
+    if over_quota Q a then (a, true, 1%nat)
+    else let '(a', b, n) := acc_loop Q a r in (a', b, S n)
+  end.
+
+Definition zsum (l : list Z) : Z := fold_right Z.add 0 l.
+
+(* ------------------------------------------------------------------------- *)
 (* registry facts (rows are generated into Gen/LimitFacts.v)                  *)
 (* ------------------------------------------------------------------------- *)
 Inductive pkind := PEager | PLazy | PHidden.
@@ -442,6 +475,8 @@ Definition mul_obs (m : mul_out) : bool * bool * Z :=
 Inductive case :=
 (* limit_iterable on a one-shot source: observed (outcome with yielded items, pulls) *)
 | CLimit (N : Z) (l : list Z) (endless : bool) (o : res (list Z)) (pulls : nat)
+(* k calls of next() on limit_iterable: observed (items, 0 asked / 1 ended / 2 raised, pulls) *)
+| CPrefix (N : Z) (l : list Z) (endless : bool) (k : nat) (got : list Z) (ending : Z) (pulls : nat)
 (* limit_iterable on a sized collection *)
 | CSized (N : Z) (l : list Z) (raised : bool)
 (* finaliser: observed result and total pulls *)
@@ -452,6 +487,8 @@ Inductive case :=
 | CMul (Q : Z) (k : kind) (n sz c csize : Z) (obs : bool * bool * Z)
 (* a growth step through the engine *)
 | CCall (Q : Z) (args : list Z) (joint : bool) (result : Z) (raised : bool)
+(* an accumulator loop: observed (raised?, source items consumed) *)
+| CAcc (Q a0 : Z) (gs : list Z) (raised : bool) (steps : nat)
 (* a tree of calls evaluated as one statement: raised? *)
 | CChain (Q : Z) (fin : Z) (e : cexpr) (raised : bool).
 
@@ -463,6 +500,9 @@ Definition case_ok_with (sizeof : sizefn) (c : case) : bool :=
   match c with
   | CLimit N l e o p =>
     let '(mo, mp) := consume N l e in res_eqb (list_eqb Z.eqb) mo o && Nat.eqb mp p
+  | CPrefix N l e k got ending p =>
+    let '(ml, me, mp) := take_lim N (src_nth Z.of_nat l e) k O in
+    list_eqb Z.eqb ml got && Z.eqb (match me with Asked => 0 | Ended => 1 | Raised => 2 end) ending && Nat.eqb mp p
   | CSized N l raised =>
     Bool.eqb (match limit_sized N l with TooLarge => true | _ => false end) raised
   | CFinal N o v r p =>
@@ -471,6 +511,8 @@ Definition case_ok_with (sizeof : sizefn) (c : case) : bool :=
   | CMul Q k n sz c cs obs =>
     obs3_eqb (mul_obs (mul_eval (estimate sizeof) sizeof Q k n sz c cs)) obs
   | CCall Q args joint result raised => Bool.eqb (call_eval Q args joint result) raised
+  | CAcc Q a0 gs raised steps =>
+    let '(_, b, n) := acc_loop Q a0 gs in Bool.eqb b raised && Nat.eqb n steps
   | CChain Q fin e raised =>
     Bool.eqb (match fst (crun Q (fun _ => fin) e) with None => true | Some _ => false end) raised
   end.
